@@ -467,7 +467,7 @@ def cases(rng, tier):
                     out.append({"maxsize": maxsize, "reqs": [{"head": False, "preload": False, "caller": list(c)}, {"head": False, "preload": False, "caller": ["read_all"]},
                                                              {"head": False, "preload": True, "caller": ["read_all"]}],
                                 "replies": [dict(PLAIN, first=first, late=True, framing="chunked")] + [dict(PLAIN)] * 12})
-    n = 2500 if tier == "quick" else 200000
+    n = 7000 if tier == "quick" else 200000
     for _ in range(n):
         out.append(one_case(rng))
     return out
